@@ -774,8 +774,47 @@ def desugar_closure_calls(raw, originals, stats=None, owner=None):
         if d not in ("std::ops::Fn::call", "std::ops::FnMut::call_mut", "std::ops::FnOnce::call_once") or len(t["args"]) != 2:
             continue
         q = originals.get(r)
+        env_op = t["args"][0]
         if q is None or q.kind != "closure":
-            continue
+            # a generic helper that was spliced in calls its closure *parameter*: here the parameter is bound to a closure
+            # written in this body -- follow the environment operand back to it
+            q = None
+            cur = env_op.get("p") if env_op.get("k") in ("move", "copy") else None
+            by_ref = False
+            for _ in range(8):
+                if cur is None or cur[1]:
+                    break
+                cst = _single_closure_def(raw, cur[0])
+                if cst is not None:
+                    q = originals.get(cst["rv"]["def"])
+                    break
+                defs = [st for b_ in blocks for st in b_["stmts"] if st["k"] == "assign" and st["lhs"] == [cur[0], []]]
+                calls_ = [b_ for b_ in blocks if b_["term"]["k"] == "call" and b_["term"].get("dest") == [cur[0], []]]
+                if len(defs) != 1 or calls_:
+                    break
+                rv = defs[0]["rv"]
+                if rv["k"] == "use" and rv["op"].get("k") in ("move", "copy"):
+                    cur = rv["op"]["p"]
+                elif rv["k"] == "ref" and not rv["p"][1]:
+                    cur = rv["p"]
+                    by_ref = True
+                elif rv["k"] == "ref" and rv["p"][1] == ["*"]:
+                    cur = [rv["p"][0], []]
+                else:
+                    break
+            if q is None or q.kind != "closure" or q.arg_count < 1:
+                continue
+            # the body expects its environment as the closure's own kind says (&, &mut or by value)
+            env_ty = q.raw["locals"][1]["ty"]
+            if d == "std::ops::FnOnce::call_once" and env_ty.startswith("&"):
+                # called by value through FnOnce, body takes a reference: bind a reference to the moved closure value
+                tmpc = len(raw["locals"])
+                raw["locals"].append({"ty": "<closure>", "mut": True, "user": False, "synthetic": True})
+                blocks[bi]["stmts"].append({"k": "assign", "l": t.get("l"), "lhs": [tmpc, []], "rv": {"k": "use", "op": env_op}})
+                refc = len(raw["locals"])
+                raw["locals"].append({"ty": "&<closure>", "mut": True, "user": False, "synthetic": True})
+                blocks[bi]["stmts"].append({"k": "assign", "l": t.get("l"), "lhs": [refc, []], "rv": {"k": "ref", "mut": env_ty.startswith("&mut"), "p": [tmpc, []]}})
+                env_op = {"k": "move", "p": [refc, []]}
         # the closure must be one created in this very body (not a parameter / captured callback)
         if not any(st["k"] == "assign" and st["rv"]["k"] == "agg" and st["rv"].get("kind") == "closure" and st["rv"].get("def") == q.id for b in blocks for st in b["stmts"]):
             continue
@@ -796,7 +835,7 @@ def desugar_closure_calls(raw, originals, stats=None, owner=None):
         ln = t.get("l")
         RET = len(blocks)
         blocks.append(None)
-        entry, lb, pro = splice_closure(raw, q, None, arg_ops, RET, ln, env_op=t["args"][0])
+        entry, lb, pro = splice_closure(raw, q, None, arg_ops, RET, ln, env_op=env_op)
         blocks[RET] = {"cleanup": False, "inl": q.id, "stmts": [{"k": "assign", "l": ln, "lhs": t["dest"], "rv": {"k": "use", "op": {"k": "move", "p": [lb, []]}}, "inl": q.id}],
                        "term": {"l": ln, "k": "goto", "target": t["target"]}}
         b = blocks[bi]
@@ -825,7 +864,7 @@ def inline_body(db, f, originals, stats=None, mode="cons"):
                     changed = True
         if not os.environ.get("VERIF_NO_CLOSURE_CALLS"):
             src1 = raw if raw is not None else f.raw
-            if any(b["term"]["k"] == "call" and _fn_def(b["term"])[0] in ("std::ops::Fn::call", "std::ops::FnMut::call_mut", "std::ops::FnOnce::call_once") and _fn_def(b["term"])[1] in originals for b in src1["blocks"]):
+            if any(b["term"]["k"] == "call" and _fn_def(b["term"])[0] in ("std::ops::Fn::call", "std::ops::FnMut::call_mut", "std::ops::FnOnce::call_once") for b in src1["blocks"]):
                 if raw is None:
                     raw = copy.deepcopy(f.raw)
                 if desugar_closure_calls(raw, originals, stats, f.id):
